@@ -33,10 +33,14 @@ CORE = ["SetOut: 5", "Valve: Open", "Pause"]
 REQUESTS = [("user", "Start"), ("user", "Stop"), ("user", "Pause"), ("user", "Unpause"), ("user", "Hold"), ("user", "Unhold"),
             ("user", "Restart"), ("inject", "SetOut: 7"), ("inject", "Valve: Open")]
 REDUCED = [("user", "Start"), ("user", "Stop"), ("user", "Pause"), ("user", "Unpause"), ("inject", "SetOut: 7")]
+# errors that arrive while the run is on hold / paused / running: a user-issued UOD command that raises
+ERRSET = [("user", "Hold"), ("user", "Unhold"), ("user", "Pause"), ("user", "Unpause"), ("user", "Fail")]
+REQSETS = {"full": REQUESTS, "reduced": REDUCED, "error": ERRSET}
 PRE = 2                                 # ticks before the first Start
 HORIZON = {"quick": 16, "thorough": 18}           # ticks per execution
 # request ticks per request set: (first, last)
-TICKS = {("quick", "full"): (0, 13), ("thorough", "full"): (0, 15), ("thorough", "reduced"): (2, 13), ("quick", "reduced"): (2, 11)}
+TICKS = {("quick", "full"): (0, 13), ("thorough", "full"): (0, 15), ("thorough", "reduced"): (2, 13), ("quick", "reduced"): (2, 11),
+         ("quick", "error"): (3, 11), ("thorough", "error"): (3, 13)}
 WRITERS = {"SetOut": "Out1", "Set1": "Out1", "Valve": "Out2"}
 
 
@@ -165,7 +169,13 @@ def run_one(lines, schedule, horizon, trace=None):
                     continue
                 writers = sorted({c[1] for c in run.cmd_events if c[2] == "exec" and c[0] >= pause_begin
                                   and WRITERS.get(c[1]) == r})
-                if writers and pause_kind != "error-pause":
+                # ... of which started (init) in the very tick in which the pause began
+                fresh = sorted({c[1] for c in run.cmd_events if c[2] == "init" and c[0] == pause_begin and c[1] in writers})
+                if writers and pause_kind == "error-pause" and fresh:
+                    report(f"C08:pause-not-safe:{r}:{pause_kind}:command-started-in-the-error-tick",
+                           f"tick {t}: paused ({pause_kind}) since tick {pause_begin} but the hardware holds {r} = {mem[r]!r}, safe "
+                           f"value {safe[r]!r}: UOD command {fresh[0]} was started in the tick of the error, after the safe state was applied")
+                elif writers:
                     report(f"C08:pause-overwritten-by-running-uod-command:{writers[0]}",
                            f"tick {t}: paused since tick {pause_begin} but the hardware holds {r} = {mem[r]!r} (safe value "
                            f"{safe[r]!r}): UOD command {writers[0]} kept executing during the pause and wrote the output")
@@ -194,7 +204,7 @@ def explore_program(item):
     lines, k, reqset, first, tier = item
     horizon = HORIZON[tier]
     cands = candidates(tier, reqset)
-    nreq = len(REQUESTS if reqset == "full" else REDUCED)
+    nreq = len(REQSETS[reqset])
     out = []
     seen = set()
     tot = dict(execs=0, pruned=0, nontrivial=0, pause_ticks=0, stop_ticks=0, prestart_ticks=0, exempt_used=0, ticks=0)
@@ -237,7 +247,7 @@ def explore_program(item):
 
 def candidates(tier, reqset):
     lo, hi = TICKS[(tier, reqset)]
-    return [(t, r) for t in range(lo, hi + 1) for r in (REQUESTS if reqset == "full" else REDUCED)]
+    return [(t, r) for t in range(lo, hi + 1) for r in REQSETS[reqset]]
 
 
 def programs(stmts, max_n):
@@ -268,6 +278,8 @@ def corpus(ctx):
                 items.append((p, 1, "full"))
         for p in programs(["SetOut: 5", "Valve: Open", "Pause"], 2):
             items.append((p, 3, "reduced"))
+    for p in (["SetOut: 5"], ["Valve: Open"], ["SetOut: 5", "Valve: Open"], ["Valve: Open", "Wait: 0.3s", "SetOut: 5"]):
+        items.append((p, 2 if ctx.quick else 3, "error"))
     return items
 
 
@@ -310,7 +322,7 @@ def run(ctx):
                  {"lines": progs[-1][0], "k": progs[-1][1], "requests": progs[-1][2]}],
         exhaustive=True, horizon=HORIZON[ctx.tier], request_ticks={k[1]: list(v) for k, v in TICKS.items() if k[0] == ctx.tier},
         ticks_before_start=PRE, statements=STMTS + EXTRA,
-        requests=[list(r) for r in REQUESTS], reduced_requests=[list(r) for r in REDUCED])
+        requests=[list(r) for r in REQUESTS], reduced_requests=[list(r) for r in REDUCED], error_requests=[list(r) for r in ERRSET])
     ctx.assumptions += ["a request rejected by Engine._validate_control_command changes nothing (its branch is not extended)",
                         "Start is requested before tick 2 in every execution; the schedule adds further requests",
                         "user commands reach the engine as in production: control commands by name, UOD commands by inject"]
